@@ -525,14 +525,18 @@ class HashRule(ABC):
     def clone(self) -> "HashRule":
         pass
 
+    # Two symbols bound to the same object (`g2 = g`) have the same key. They are still two
+    # dependencies, each of which can be re-bound on its own, so the symbol is part of the
+    # identity of a rule.
+
     def __lt__(self, other):
-        return self.key < other.key
+        return (self.key, self.symbol) < (other.key, other.symbol)
 
     def __eq__(self, other):
-        return self.key == other.key
+        return (self.key, self.symbol) == (other.key, other.symbol)
 
     def __hash__(self):
-        return hash(self.key)
+        return hash((self.key, self.symbol))
 
     def __str__(self):
         return self.describe()
